@@ -147,6 +147,8 @@ fn advance_search_along_ray(section: &Curve2, last_station: &InscribedCircle) ->
     // radius, we will consider the search to have advanced.
     let mut frac = 0.25;
     while frac > 0.05 {
+        #[cfg(feature = "verif")]
+        crate::verif::tick();
         let next_center = camber_point.at_distance(frac * last_station.radius());
         let test_dir = rot90(Ccw) * camber_point.normal;
         let test_ray = Ray::new(next_center, test_dir.into_inner());
